@@ -5,7 +5,7 @@ from vlib import hx, unhx, case_line, show
 
 THEOREMS = ["C12_inside", "C12_resolves", "C12_accepted_alias_is_plain", "C12_pinned_refuted"]
 
-WORDS = ["default.target", "multi-user.target", "a.service", "sub/x.target", "/abs.target", "..", ".", "w x", "é.target", "t@.service", "../up.target", "a/../b.target", "x"]
+WORDS = ["default.target", "multi-user.target", "a.service", "sub/x.target", "/abs.target", "..", ".", "w x", "é.target", "t@.service", "../up.target", "a/../b.target", "x", "nested/", "dir//", "deps/.", "./dot.target"]
 ALIASES = ["al.service", "sub/dir/al.service", "./a/./b.service", "a/../c.service", "../escape.service", "a/../../escape2.service", "/ABS/victim", "/ABS/sub/new.service",
            "..", ".", "x/..", "d/", "é.service", "al ias.service", "/", "//ABS//victim", "../../OUTSIDE/victim"]
 
@@ -66,7 +66,7 @@ def gen_install(rng):
         ws = [rng.choice(ALIASES) for _ in range(rng.randint(1, 3))]
         es.append(("Alias", " ".join('"%s"' % w if " " in w else w for w in ws)))
     if rng.random() < 0.4:
-        es.append(("DefaultInstance", rng.choice(["inst", "a-b", "", "/../../../OUTSIDE/x", "sub/i"])))
+        es.append(("DefaultInstance", rng.choice(["inst", "a-b", "", "/../../../OUTSIDE/x", "sub/i", "inst/", "i/."])))
     rng.shuffle(es)
     return es
 
@@ -80,7 +80,7 @@ def classify(install):
 
 
 def run(ctx):
-    ctx.rule = ("[Install] sections with 0-2 WantedBy/RequiredBy assignments of 0-3 words (plain names, names with '/', '..', blanks, non-ASCII) and 0-2 Alias assignments (plain, nested, "
+    ctx.rule = ("[Install] sections with 0-2 WantedBy/RequiredBy assignments of 0-3 words (plain names, names with '/' anywhere including a trailing separator or '/.', '..', blanks, non-ASCII) and 0-2 Alias assignments (plain, nested, "
                 "with '.'/'..', climbing out, absolute paths pointing at decoy files outside the output directory, '/', '..'), with and without template names and DefaultInstance; each run "
                 "through the real enable_service_file in a scratch tree with decoys; non-trivial = at least one Alias or a word with '/' or '..'; distinct = distinct (service name, section)")
     rng = ctx.rng
